@@ -107,3 +107,12 @@ Print Assumptions C16_py_sorted_sorted_total.
 Print Assumptions C16_chain_iff_total.
 Print Assumptions C16_sorted_strings_perm_invariant.
 Print Assumptions C16_sorted_perm_unique.
+
+(* what a fix / trim of `x in snapshot(<set>)` writes does not depend on the iteration order of the set (the hash seed) (F-85; Model/CollReplace.v) *)
+From V Require Model.CollReplace Proofs.CollReplaceProofs.
+Theorem C16_coll_replace_set_order_irrelevant :
+  forall (unm trim : bool) (old old' tested : list Z),
+  Permutation.Permutation old old' ->
+  CollReplace.coll_replace unm trim true old tested = CollReplace.coll_replace unm trim true old' tested.
+Proof. exact CollReplaceProofs.set_order_irrelevant. Qed.
+Print Assumptions C16_coll_replace_set_order_irrelevant.
